@@ -406,6 +406,19 @@ func (n *Node) StoreWrongParent(b *lib.Bundle) (c *lib.Bundle, attempted bool, e
 	return c, true, err
 }
 
+// StoreUnsupportedVersion offers a copy of the bundle whose protocol version is above the latest one juno
+// supports directly to Blockchain.Store: verifyBlockSuccession (CheckBlockVersion) must refuse it.
+func (n *Node) StoreUnsupportedVersion(b *lib.Bundle) (c *lib.Bundle, attempted bool, err error) {
+	c = b.Clone()
+	commitments, err := n.BC.SanityCheckNewHeight(c.Block, c.SU, c.Classes)
+	if err != nil {
+		return c, false, err
+	}
+	c.Block.ProtocolVersion = "0.15.0"
+	err, _, _ = lib.Try(func() error { return n.BC.Store(c.Block, commitments, c.SU, c.Classes) })
+	return c, true, err
+}
+
 func (n *Node) Store(b *lib.Bundle) error {
 	err, _, _ := lib.Try(func() error { return lib.StoreOn(n.BC, b) })
 	return err
